@@ -5,7 +5,7 @@ cd "$(dirname "$0")"
 export GOFLAGS=-mod=mod GOPROXY=off GOSUMDB=off GOTOOLCHAIN=local
 mkdir -p build evidence replay
 [ -f go.sum ] || cp /repo/go.sum go.sum
-for pkg in fsm codec; do
+for pkg in fsm codec real; do
   if ls checks/$pkg/*_test.go >/dev/null 2>&1; then
     go1.26.8 test -c -tags verif -vet=off -o build/warm.$pkg.test ./checks/$pkg
     go1.26.8 test -c -tags verif -vet=off -race -o build/warm.$pkg.race.test ./checks/$pkg
